@@ -24,6 +24,7 @@ import DdsModel.Proofs.ConvShared
 import DdsModel.Proofs.ConvF16All
 import DdsModel.Proofs.ConvF32Thr
 import DdsModel.Proofs.YuvErr
+import DdsModel.Proofs.F32ErrRound
 import DdsModel.Proofs.Pairing
 import DdsModel.Proofs.FieldsWF
 import DdsModel.Drv.C04
@@ -540,6 +541,15 @@ theorem f32_ops_standard_model (a b E : Nat) (ha : Dds.F32Err.FinP a) (hb : Dds.
     fun h1 h2 => Dds.F32Err.fsub_ulp a b ha hb E _ hE rfl h1 h2⟩
 example : Dds.F32Err.FinP 0x3F950A81 ∧ Dds.F32Err.FinP 0xC3000000 ∧ toRat 0x3F950A81 * toRat 0xC3000000 < ((2 ^ 8 : Nat) : Rat) ∧
     -((2 ^ 8 : Nat) : Rat) < toRat 0x3F950A81 * toRat 0xC3000000 := by decide +kernel
+
+/-- and for the specification function itself: `roundF32 q` ("the nearest binary32 of `q`", the right-hand side of the
+`…_exact` / `…_eq_spec` theorems above) of ANY rational in the normal range `2^-126 ≤ |q| < 2^127` is a finite binary32
+within the relative error `2^-24` of `q` -/
+theorem roundF32_relative_error (q : Rat) (hlo : 1 ≤ q.abs * ((2 ^ 126 : Nat) : Rat)) (hhi : q.abs < ((2 ^ 127 : Nat) : Rat)) :
+    Dds.F32Err.FinP (roundF32 q) ∧ Dds.F32Err.Near (toRat (roundF32 q)) q (q.abs / 16777216) :=
+  Dds.F32Err.roundF32_rel q hlo hhi
+example : (1 : Rat) ≤ (1 / 3 : Rat).abs * ((2 ^ 126 : Nat) : Rat) ∧ (1 / 3 : Rat).abs < ((2 ^ 127 : Nat) : Rat) ∧
+    roundF32 (1 / 3) = 0x3EAAAAAB ∧ toRat 0x3EAAAAAB - 1 / 3 = 1 / 100663296 := by decide +kernel
 
 /-- non-vacuity / special values: black (`y = 16`, `u = v = 128` resp. the 10/16-bit offsets) is exactly 0 at every
 precision; nominal white (`y = 235`: ideal 254.999877/255) gives the maximum codes and the float `0x3F7FFFFA`
